@@ -60,10 +60,7 @@ def matchLine (line : String) : String :=
 def parseRepl (n : Nat) (toks : List String) : Option (Sum (List (Bytes × JV) → List Bytes) (List (List Bytes))) :=
   match toks with
   | ["c", t] => (parseS t).map fun b => .inl fun _ => [b]
-  | ["f", t] => (parseS t).map fun k => .inl fun kvs =>
-      match kvLookup k kvs with
-      | some (.str b) => [b]
-      | _ => [[]]
+  | ["f", t] => (parseS t).map fun k => .inl (fieldRep k)
   | "l" :: rest =>
     if n == 0 then some (.inr []) else ((splitOnTok ";" rest).mapM parseSs).map .inr
   | _ => none
